@@ -380,6 +380,7 @@ func r36ActionOrder(c *core.Ctx) {
 		mp + ".initGPKGTarget":                                "initGPKGTarget",
 		mp + "/processing/gpkg.TargetGeopackage.CreateTables": "CreateTables",
 		mp + ".processBySnapping":                             "processBySnapping",
+		mp + "/processing.ProcessFeatures":                    "processBySnapping", // the same step with the helper written out
 	}
 	found := map[string]bool{}
 	for _, b := range sf.Blocks {
@@ -475,7 +476,7 @@ func r36ActionOrder(c *core.Ctx) {
 	var tableLoop *ast.RangeStmt
 	ast.Inspect(lit.Body, func(n ast.Node) bool {
 		if r, ok := n.(*ast.RangeStmt); ok {
-			if len(core.CallsIn(info, r.Body, "main.processBySnapping")) == 1 && tableLoop == nil {
+			if len(core.CallsIn(info, r.Body, "main.processBySnapping", "processing.ProcessFeatures")) == 1 && tableLoop == nil {
 				tableLoop = r
 			}
 		}
@@ -485,7 +486,7 @@ func r36ActionOrder(c *core.Ctx) {
 		c.Bad(R, "table-loop/main.Action", lit.Pos(), "no loop containing the processBySnapping call found")
 	} else {
 		tableVar := core.ObjOf(info, tableLoop.Value)
-		call := core.CallsIn(info, tableLoop.Body, "main.processBySnapping")[0]
+		call := core.CallsIn(info, tableLoop.Body, "main.processBySnapping", "processing.ProcessFeatures")[0]
 		srcSet, tgtSet, after := false, false, ""
 		ast.Inspect(tableLoop.Body, func(n ast.Node) bool {
 			as, ok := n.(*ast.AssignStmt)
@@ -587,10 +588,25 @@ func r36ActionOrder(c *core.Ctx) {
 // path, the result of snap.SnapPolygon called with its own polygon and id list and the action's tile matrix set and
 // configuration: no shortcut decides about a polygon without asking the library.
 func r36PolygonFuncAlwaysSnaps(c *core.Ctx, R string) {
-	pb := c.Anchor(R, "main.processBySnapping")
-	if pb == nil || pb.SSA == nil {
+	// the function of package main that calls processing.ProcessFeatures: processBySnapping, or the action itself
+	// when that helper is written out
+	var pbFn *ssa.Function
+	var pbDecl *core.Func
+	for _, f := range sortedFuncs(c.P) {
+		if core.ShortPkg(f.Pkg.PkgPath) != "main" || f.SSA == nil {
+			continue
+		}
+		for _, fn := range core.AllSSAFuncs(f.SSA) {
+			if len(findCalls(fn, core.ModPath+"/processing.ProcessFeatures")) > 0 {
+				pbFn, pbDecl = fn, f
+			}
+		}
+	}
+	if pbFn == nil {
+		c.Bad(R, "polygon-function-always-snaps/main", token.NoPos, "no call of processing.ProcessFeatures in package main")
 		return
 	}
+	pb := &core.Func{Name: "main.processBySnapping", Pkg: pbDecl.Pkg, Decl: pbDecl.Decl, Obj: pbDecl.Obj, SSA: pbFn}
 	construct := "polygon-function-always-snaps/" + pb.Name
 	calls := findCalls(pb.SSA, core.ModPath+"/processing.ProcessFeatures")
 	if len(calls) != 1 || len(calls[0].Call.Args) != 3 {
@@ -655,7 +671,7 @@ func r36PolygonFuncAlwaysSnaps(c *core.Ctx, R string) {
 				why = "SnapPolygon is not called with the polygon the function was given"
 			case resolveValue(a[2]) != ssa.Value(fn.Params[1]):
 				why = "SnapPolygon is not called with the id list the function was given"
-			case mc != nil && len(pb.SSA.Params) == 4 && (boundTo(a[1]) != ssa.Value(pb.SSA.Params[2]) || boundTo(a[3]) != ssa.Value(pb.SSA.Params[3])):
+			case mc != nil && pbFn.Name() == "processBySnapping" && len(pb.SSA.Params) == 4 && (boundTo(a[1]) != ssa.Value(pb.SSA.Params[2]) || boundTo(a[3]) != ssa.Value(pb.SSA.Params[3])):
 				why = "SnapPolygon is not called with processBySnapping's tile matrix set and configuration"
 			}
 		}
